@@ -25,7 +25,9 @@ RULE = ('random integer-weighted flux matrices, n = 1..9: (a) acyclic conserved 
         'positional call; remove_path as a callable (own pure, own in-place, the module helper); the same argument '
         'objects passed twice; residuals of the module helpers fed forward; degenerate structures (adjacent '
         'source/sink, disconnected sink, self-loops only, single state, all-equal weights, isolated states, '
-        'pendant); totals 2^k with the cut-off reached exactly; 256/257/300-state chain, fan and layered DAG '
+        'pendant); wide dynamic range inside one matrix (entries m*2^-e, e up to 200: heavy dead end / diagonal / '
+        'unreachable component / first edge / last edge, random per-edge exponents; model run on the integer '
+        'matrix times the common power of two); totals 2^k with the cut-off reached exactly; 256/257/300-state chain, fan and layered DAG '
         '(oracle only); a case is non-trivial when at least one pathway is returned; distinct by canonical input')
 ASSUMPTIONS = [
     'float64/float32 arithmetic (compare, min, subtract) on integers times a power of two is exact, so the '
@@ -780,6 +782,72 @@ def gen_large(rng, thorough):
     return out
 
 
+def gen_widerange(rng):
+    """entries of ONE matrix spanning far more than 2^52 (audit class 3, relative thresholds): weights are
+    m * 2^-e with small m and e up to 200, stored as the integers m * 2^(E - e); the real matrix is that
+    integer matrix times 2^-E (exact).  The heavy entries sit where no source-to-sink path passes (dead
+    end, diagonal, unreachable component) so that the `subtract` arithmetic stays exact; where a heavy
+    edge lies ON the path (heavy first edge, random exponents) `subtract` is only run with num_paths=1
+    (no subtraction happens) and `bottleneck`, which does no arithmetic, is run to exhaustion."""
+    k = int(rng.integers(0, 6))
+    e = int(rng.integers(60, 121))             # the real paths live at 2^-e of the maximum
+    tiny = lambda: int(rng.integers(1, 9))     # noqa: E731
+    heavy = 2 ** e
+    full_subtract = True
+    if k == 0:      # heavy dead end next to a diamond of tiny edges
+        F = [[0] * 6 for _ in range(6)]
+        F[0][5] = heavy
+        a, b = tiny(), tiny()
+        F[0][1] = a + b
+        F[1][2], F[2][4] = a, a
+        F[1][3], F[3][4] = b, b
+        base = {'flux': F, 'sources': [0], 'sinks': [4]}
+    elif k == 1:    # large diagonal entry on a state of the route
+        F = [[0] * 4 for _ in range(4)]
+        F[1][1] = heavy
+        F[0][1], F[1][3], F[0][2], F[2][3] = tiny(), tiny(), tiny(), tiny()
+        base = {'flux': F, 'sources': [0], 'sinks': [3]}
+    elif k == 2:    # heavy edge in an unreachable component
+        F = [[0] * 5 for _ in range(5)]
+        F[3][4] = heavy
+        F[0][1], F[1][2], F[0][2] = tiny(), tiny(), tiny()
+        base = {'flux': F, 'sources': [0], 'sinks': [2]}
+    elif k == 3:    # heavy first edge, the bottleneck far below
+        F = [[0] * 4 for _ in range(4)]
+        F[0][1] = heavy
+        F[1][3], F[1][2], F[2][3] = tiny(), tiny(), tiny()
+        base = {'flux': F, 'sources': [0], 'sinks': [3]}
+        full_subtract = False
+    elif k == 4:    # heavy edge INTO the sink from a state that is only weakly reachable
+        F = [[0] * 4 for _ in range(4)]
+        F[0][1], F[1][3] = tiny(), heavy
+        F[0][2], F[2][3] = tiny(), tiny()
+        base = {'flux': F, 'sources': [0], 'sinks': [3]}
+        full_subtract = False
+    else:           # random digraph, every edge its own exponent in [0, E]
+        E = int(rng.choice([60, 120, 200]))
+        n = int(rng.integers(3, 8))
+        S, T = pick_st(rng, n)
+        dens = float(rng.choice([0.3, 0.6]))
+        F = [[0] * n for _ in range(n)]
+        for i in range(n):
+            for j in range(n):
+                if rng.random() < dens:
+                    F[i][j] = 2 ** int(rng.integers(0, E + 1))
+        base = {'flux': F, 'sources': S, 'sinks': T}
+        e = E
+        full_subtract = False
+    base.update(kind='digraph', family='widerange-%d' % k)
+    variant = {'dtype': 'float64', 'order': str(rng.choice(['C', 'F'])),
+               'container': str(rng.choice(['list', 'array'])), 'scale': 2.0 ** -e}
+    out = [dict(base, what='top_path', **variant),
+           dict(base, what='paths', scheme='bottleneck', num_paths=None, cutoff=[None, 2.0][int(rng.integers(0, 2))],
+                **variant),
+           dict(base, what='paths', scheme='subtract', num_paths=None if full_subtract else 1,
+                cutoff=[None, 2.0][int(rng.integers(0, 2))], **variant)]
+    return out
+
+
 def probe_unsupported(ctx):
     """containers the code does not document (np.matrix, list of lists, sets of indices): they must not
     silently return a wrong decomposition; raising is fine (outside the property's quantifier)"""
@@ -880,6 +948,8 @@ def run(ctx):
                               **pick_variant(rng, base)))
     for g in range(ctx.n(4, 30)):
         cases += gen_large(rng, ctx.thorough)
+    for g in range(ctx.n(40, 1500)):
+        cases += gen_widerange(rng)
     probe_unsupported(ctx)
     run_cases(ctx, cases)
     ctx.note('graphs', ng + nt + len(FIXED))
